@@ -106,6 +106,30 @@ func TestVerifBoundedC43ListLaws(t *testing.T) {
 			if n != wantN {
 				fail("%v limit %d: Limit yielded %d values, want %d", seq, limit, n, wantN)
 			}
+			// limits compose: a limit of a limit is the prefix both allow (0 or less: no limit)
+			for inner := -1; inner <= 7; inner += 2 {
+				src3 := &verifC43Src{vals: seq}
+				nested := Limit[int](Limit[int](src3, inner), limit)
+				k := 0
+				for nested.Next() {
+					k++
+				}
+				wantK := len(seq)
+				for _, l := range []int{inner, limit} {
+					if l > 0 && l < wantK {
+						wantK = l
+					}
+				}
+				if k != wantK {
+					fail("%v: Limit(Limit(src, %d), %d) yielded %d values, want %d", seq, inner, limit, k, wantK)
+				}
+				if wantK < len(seq) && src3.asked > wantK {
+					fail("%v: Limit(Limit(src, %d), %d) asked the source %d times for %d values", seq, inner, limit, src3.asked, wantK)
+				}
+				if err := nested.Close(); err != nil || src3.closed != 1 {
+					fail("%v: closing Limit(Limit(src)) closed the source %d times", seq, src3.closed)
+				}
+			}
 			// slice iterator and JSON iterator yield the sequence itself
 			if got := ReadAll[int](FromSlice(seq)); fmt.Sprint(got) != fmt.Sprint(append([]int(nil), seq...)) && len(seq) > 0 {
 				fail("%v: FromSlice yields %v", seq, got)
@@ -154,7 +178,30 @@ func TestVerifBoundedC43ListLaws(t *testing.T) {
 			fail("JSON records decoded as %v, want %s (every record on its own)", got, want)
 		}
 	}
-	fmt.Printf("BOUNDED-STATS {\"cases\":%d,\"failures\":%d,\"bound\":\"all sequences of length 0..6 over 3 values, limits -1..8\"}\n", cases, fails)
+	// a stream that ends in the middle of a value is malformed input: the elements before it are
+	// yielded, then one error result, never a silent end
+	for _, stream := range []string{`{"a":1}` + "\n" + `{"a":`, `{"a":1}` + "\n" + `{"a":2`, `[1,2`, `{"a":1}` + "\n" + `{"a":"x"}` + "\n" + `{"a":3}`, `"abc`} {
+		cases++
+		type rec struct {
+			A int `json:"a"`
+		}
+		it := FromReaderJSON[rec](strings.NewReader(stream))
+		sawErr := false
+		n := 0
+		for it.Next() {
+			n++
+			if it.Val().Err != nil {
+				sawErr = true
+			}
+			if n > 10 {
+				break
+			}
+		}
+		if !sawErr {
+			fail("JSON stream %q: iteration ended after %d results without an error result", stream, n)
+		}
+	}
+	fmt.Printf("BOUNDED-STATS {\"cases\":%d,\"failures\":%d,\"bound\":\"all sequences of length 0..6 over 3 values, limits -1..8, nested limits, 5 malformed JSON streams\"}\n", cases, fails)
 	if fails > 0 {
 		t.Fail()
 	}
